@@ -39,7 +39,40 @@ CASES = {
     "decorator": "import functools\n@functools.lru_cache\ndef f(x: int) -> int:\n    return x\n",
     "augmented assign": "def f(x: int) -> int:\n    x += 1\n    return x\n",
     "unreachable": "def f(x: int) -> int:\n    return x\n    return 2\n",
+    # raise / assert / Optional narrowing: unsupported variants
+    "raise inside loop": "def f(x: str) -> int:\n    for c in x:\n        raise ValueError('a')\n    return 1\n",
+    "bare raise": "def f(x: int) -> int:\n    if x > 0:\n        raise\n    return 1\n",
+    "raise from": "def f(x: int) -> int:\n    if x > 0:\n        raise ValueError('a') from None\n    return 1\n",
+    "try/except around raise": "def f(x: int) -> int:\n    try:\n        raise ValueError('a')\n    except ValueError:\n        return 2\n",
+    "raise computed exception": "def f(x: int, e: str) -> int:\n    if x > 0:\n        raise e\n    return 1\n",
+    "raise with two args": "def f(x: int) -> int:\n    if x > 0:\n        raise ValueError('a', 'b')\n    return 1\n",
+    "raise non-str message": "def f(x: int) -> int:\n    if x > 0:\n        raise ValueError(x)\n    return 1\n",
+    "raise in assigning branch": "def f(x: int) -> int:\n    y = 0\n    if x > 0:\n        y = 1\n        assert y > 0\n    else:\n        y = 2\n    return y\n"
+                                 .replace("        assert y > 0\n", ""),   # control: this one is fine, see EXPECT_OK
+    "raising call in expression": "def g(x: int) -> int:\n    if x > 0:\n        raise ValueError('a')\n    return x\ndef f(x: int) -> int:\n    return g(x) + 1\n",
+    "mixed value and fall-through": "def f(x: int) -> int:\n    if x > 0:\n        raise ValueError('a')\n    if x < 0:\n        return 1\n",
+    "attribute on Optional without test": "from typing import Optional, Tuple\ndef f(p: Optional[Tuple[int, int]]) -> int:\n    return p[0]\n",
+    "narrowing lost by rebinding": "from typing import Optional\ndef f(p: Optional[int], q: Optional[int]) -> int:\n    if p is not None:\n        p = q\n        return p + 1\n    return 0\n",
+    "None test on narrowed": "from typing import Optional\ndef f(p: Optional[int]) -> bool:\n    if p is not None:\n        return p is None\n    return True\n",
+    "keyword call of non-opaque": "def g(a: int) -> int:\n    return a\ndef f(x: int) -> int:\n    y = g(a=x)\n    return y\n",
+    "super without bases": "class A:\n    def m(self, x: int) -> int:\n        return x\nclass B(A):\n    def f(self, x: int) -> int:\n        return super().m(x)\n",
+    # str.format and generator expressions: unsupported variants
+    "format with spec": "def f(x: int) -> str:\n    return '{:>3}'.format(x)\n",
+    "format with conversion": "def f(x: str) -> str:\n    return '{!r}'.format(x)\n",
+    "format numbered": "def f(x: str, y: str) -> str:\n    return '{1}{0}'.format(x, y)\n",
+    "format named": "def f(x: str) -> str:\n    return '{a}'.format(a=x)\n",
+    "format too few args": "def f(x: str) -> str:\n    return '{}{}'.format(x)\n",
+    "format too many args": "def f(x: str) -> str:\n    return '{}'.format(x, x)\n",
+    "format on non-literal": "def f(t: str, x: str) -> str:\n    return t.format(x)\n",
+    "generator with two fors": "from typing import List\ndef f(a: List[str]) -> str:\n    return ''.join(x + y for x in a for y in a)\n",
+    "generator with tuple target": "from typing import List, Tuple\ndef f(a: List[Tuple[str, str]]) -> str:\n    return ''.join(x for x, y in a)\n",
+    "generator bound to a name": "from typing import List\ndef f(a: List[str]) -> str:\n    g = (x for x in a)\n    return ''.join(g)\n",
+    "sorted of generator": "from typing import List\ndef f(a: List[str]) -> str:\n    return ''.join(sorted(x for x in a))\n",
+    "tuple of generator": "from typing import List\ndef f(a: List[str]) -> bool:\n    return tuple(x for x in a) == ('a', 'b')\n",
+    "format ok (control)": "def f(x: str, n: int) -> str:\n    return '{}:{{}}{}'.format(x, n)\n",
+    "generator in join (control)": "from typing import List\ndef f(a: List[int]) -> str:\n    return '.'.join(str(n) for n in a if n > 0)\n",
 }
+EXPECT_OK = {"raise in assigning branch", "format ok (control)", "generator in join (control)"}
 
 
 def main() -> int:
@@ -48,15 +81,22 @@ def main() -> int:
         fd, path = tempfile.mkstemp(suffix=".py")
         os.write(fd, src.encode())
         os.close(fd)
+        fn = "B.f" if "class B" in src else "f"
         try:
-            py2coq.translate(path, {"functions": [{"py": "f"}]})
-            print("ACCEPTED (should be refused):", name)
-            bad += 1
+            py2coq.translate(path, {"functions": [{"py": fn, "params": {"self": "int"}}]})
+            if name in EXPECT_OK:
+                print("accepted (control):", name)
+            else:
+                print("ACCEPTED (should be refused):", name)
+                bad += 1
         except py2coq.Refuse as e:
+            if name in EXPECT_OK:
+                print("REFUSED (control should be accepted):", name, e)
+                bad += 1
             print("refused:", name, "--", str(e).split(": ", 1)[1][:100])
         finally:
             os.unlink(path)
-    print(f"{len(CASES) - bad} of {len(CASES)} refused")
+    print(f"{len(CASES) - len(EXPECT_OK) - bad} of {len(CASES) - len(EXPECT_OK)} refused, {bad} wrong")
     return 1 if bad else 0
 
 
